@@ -20,9 +20,10 @@
   optimizer takes on a program validates, every run of the NoOptimize program that ends is matched by a
   run of the optimised program with the same result, output and variables.  The validator is run on the
   raw and optimised bytes the real evaluator holds, for every generated program (translation validation);
-  it refuses exactly the √ fold (KF-12).  Not proved: the converse direction (a run of the optimised
-  program that ends is matched by one of the raw program - i.e. that the optimizer cannot make a looping
-  script terminate); that validation succeeds for every compilable script (it is checked per program).
+  it refuses exactly the √ fold (KF-12).  The converse direction is proved too
+  (`C03_optimizer_adds_no_finished_runs`, via `sim_back`: lexicographic induction on the optimised run's
+  fuel and the distance to the end of the body, for the NOPs the raw side executes alone).  Not proved:
+  that validation succeeds for every compilable script (it is checked per program).
   The streams S-opt (constant arithmetic / comparisons / conditions placed inside and next to every
   control-flow construct) carry the direct oracle "optimised and NoOptimize evaluators agree on result,
   host-call trace, variables and stack residue for every run", and the optimised real bytes of every
@@ -244,6 +245,32 @@ theorem C03_optimizer_preserves_finished_runs (c : Compiled) (fns : List (Str ×
   obtain ⟨f', h1, h2, h3, _⟩ := href f st st' ⟨hst.1, hst.2.1, hst.2.2, fun e => by cases e⟩ hend
   rw [e]
   exact ⟨f', h1.symm, h3.symm, h2.symm⟩
+
+open EvalFilter.Compiler EvalFilter.OptSim in
+/-- **… and conversely**: if the run of the optimised program ends, so does the run of the NoOptimize
+    program, with the same result, output and variables.  Together with the theorem above: one of the two
+    runs ends exactly when the other does (with enough budget), and then they agree - the optimizer can
+    neither break a script nor make a looping script terminate. -/
+theorem C03_optimizer_adds_no_finished_runs (c : Compiled) (fns : List (Str × FnImpl)) (obj : HostVal)
+    (hv : validated c = true) (f' : Nat) (st st' : RunSt) (hst : st.env = st'.env ∧ st.out = st'.out ∧ st.depth = st'.depth)
+    (hend : (run (Api.newMachine c true fns (fun _ => false)) obj f' st').1 ≠ .error .outOfFuel) :
+    ∃ f, (run (Api.newMachine c false fns (fun _ => false)) obj f st).1 = (run (Api.newMachine c true fns (fun _ => false)) obj f' st').1 ∧
+      (run (Api.newMachine c false fns (fun _ => false)) obj f st).2.out = (run (Api.newMachine c true fns (fun _ => false)) obj f' st').2.out ∧
+      (run (Api.newMachine c false fns (fun _ => false)) obj f st).2.env = (run (Api.newMachine c true fns (fun _ => false)) obj f' st').2.env := by
+  have e : Api.newMachine c true fns (fun _ => false) = optMachine (Api.newMachine c false fns (fun _ => false)) := by
+    simp [Api.newMachine, optMachine, List.map_map, Function.comp_def]
+  unfold validated at hv
+  simp only [Bool.and_eq_true, List.all_eq_true] at hv
+  have href := optimize_refinedBy (Api.newMachine c false fns (fun _ => false)) obj (fun _ => rfl)
+    (by simpa [Api.newMachine] using hv.1)
+    (by
+      intro u hu
+      simp only [Api.newMachine, List.mem_map] at hu
+      obtain ⟨g, hg, rfl⟩ := hu
+      simpa using hv.2 g hg)
+  rw [e] at hend ⊢
+  obtain ⟨f, h1, h2, h3, _⟩ := href f' st st' ⟨hst.1, hst.2.1, hst.2.2, fun e => by cases e⟩ hend
+  exact ⟨f, h1, h3, h2⟩
 
 /-- the validator accepts real programs: `x = 1 + 2 * 3; if (true) { x = x + 1; } if (1 == 2) { x = 0; } return x;`
     compiled by the model compiler optimises in validated steps -/
